@@ -30,7 +30,7 @@ fn lane_kind(ev: &Ev) -> &'static str {
         | Ev::FinalM { lane, .. } => Lane::Map(*lane).kind(),
         Ev::Command { .. } | Ev::Command2 { .. } | Ev::Cmd2 { .. } => "command",
         Ev::OnCue | Ev::Cue { .. } => Lane::Dem.kind(),
-        Ev::OnCueKey { .. } | Ev::CueKey { .. } => Lane::DemMap.kind(),
+        Ev::OnCueKey { .. } | Ev::CueKey { .. } | Ev::Keys => Lane::DemMap.kind(),
         _ => "none",
     }
 }
@@ -258,6 +258,8 @@ fn judge(prog: &Program, script: &[Step], cfg: &RunCfg, exp: RefRun, rng: &mut R
     out.add("ext/demand-cue(expected)", exp.stats.cues);
     out.add("ext/demand-sync-request(expected)", exp.stats.demand_syncs);
     out.add("ext/demand-map-cue_key(expected)", exp.stats.cue_keys);
+    out.add("ext/demand-map-sync-request(expected)", exp.stats.demand_map_syncs);
+    out.add("ext/lanes-whose-external-name-differs-from-the-lifecycle-name", agentdef::renamed_lanes());
     out.add("ext/open_lane-on_done-handler(expected)", exp.stats.lanes_opened);
     out.add("ext/open_lane-request-completed-ok(observed)", obs.lanes_opened.iter().filter(|b| **b).count() as u64);
     out.add("ext/open_lane-request-completed-with-error(observed)", obs.lanes_opened.iter().filter(|b| !**b).count() as u64);
@@ -301,7 +303,7 @@ fn judge(prog: &Program, script: &[Step], cfg: &RunCfg, exp: RefRun, rng: &mut R
     // consistently over the whole run; the known deviation gets its own signature. Candidates
     // are tried in the order of the number of readings that differ from the documented one.
     let has_closure = prog.any_node(|n| matches!(n, Node::AndThenCtx(..) | Node::AndThenTry(..)));
-    let has_cue_key = prog.any_node(|n| matches!(n, Node::CueKey(_)));
+    let has_cue_key = prog.any_node(|n| matches!(n, Node::CueKey(_))) || script.iter().any(|s| matches!(s, Step::Send(program::Input::Sync(Lane::DemMap))));
     let both = [true, false];
     let mut candidates = vec![];
     for same in both {
@@ -358,6 +360,8 @@ fn judge(prog: &Program, script: &[Step], cfg: &RunCfg, exp: RefRun, rng: &mut R
             out.count("tolerated/on_cue_key-deferred-while-an-earlier-value-is-unwritten");
             out.add("observed/cue_key-whose-on_cue_key-was-put-off-until-after-the-write(not-nested)", alt.stats.cue_keys_deferred - alt.stats.cue_keys_coalesced.min(alt.stats.cue_keys_deferred));
             out.add("observed/cue_key-of-a-key-already-queued(coalesced)", alt.stats.cue_keys_coalesced);
+            out.add("observed/demand-map-lane-asked-for-its-handler-after-a-completed-write", alt.stats.demand_map_event_after_write);
+            out.add("observed/demand-map-synced-message", alt.stats.demand_map_synced);
         }
         if !policy.external_fail_fatal && lenient_external_fail {
             out.count("tolerated/fail-in-remote-command-handler-not-fatal");
